@@ -34,6 +34,9 @@ type BufSpec struct {
 	// WithIt (reader sources): the last piece is returned together with the
 	// terminal io.EOF / I/O error in one Read call.
 	WithIt bool `json:"with_it,omitempty"`
+	// UnexpectedEOF: the source's I/O error is exactly io.ErrUnexpectedEOF (what a truncated compressed
+	// stream or an io.ReadFull-based reader returns) instead of an UNAVAILABLE status.
+	UnexpectedEOF bool `json:"unexpected_eof,omitempty"`
 }
 
 // Answer is one scripted reply of the ErrorHandler.
@@ -102,6 +105,7 @@ type src struct {
 	emitted  []string
 	readsAC  int // reads after close
 	gaveData int // bytes handed out
+	failErr  error
 }
 
 func (s *src) final() error {
@@ -112,6 +116,9 @@ func (s *src) final() error {
 	// legitimately drops an error that arrives together with the last wanted
 	// byte and sees it again on the next Read, so emissions are not counted.
 	s.emits++
+	if s.failErr != nil {
+		return s.failErr
+	}
 	msg := "io-fail " + s.name
 	if s.emits == 1 {
 		s.emitted = append(s.emitted, msg)
@@ -259,6 +266,9 @@ func (e *env) build(spec BufSpec, name, role string) buffer.Buffer {
 			total = spec.FailAt
 		}
 		s := &src{name: name, role: role, fail: spec.FailAt >= 0, withIt: spec.WithIt}
+		if spec.UnexpectedEOF {
+			s.failErr = io.ErrUnexpectedEOF
+		}
 		at := 0
 		for _, l := range spec.Chunks {
 			if at+l > total {
